@@ -123,12 +123,12 @@ theorem pushFront_core {d : Deque} {as : List Nat} (h : Inv d [] as) (v : Nat) :
 def unlink (d : Deque) (ele : Nat) : Option Deque := do
   let d ← d.doRemove ele
   let d := d.putElement ele
-  if d.length = 0 then d.autoReset else pure d
+  return if d.length = 0 then d.autoReset else d
 
 theorem unlink_inv {d : Deque} {l r : List Nat} {a : Nat} (h : Inv d [] (l ++ a :: r))
     (hlen : d.length = ((l ++ a :: r).length : Nat)) :
     ∃ d', d.unlink a = some d' ∧ Inv d' [] (l ++ r) ∧ d'.length = ((l ++ r).length : Nat) ∧
-      (∀ b ∈ l ++ r, (d'.load b).value = (d.load b).value) ∧ d'.elements ≠ [] := by
+      ∀ b ∈ l ++ r, (d'.load b).value = (d.load b).value := by
   obtain ⟨d1, hrm, hi1, hl1, hla, hv1⟩ := doRemove_inv h
   have haddr : (d1.load a).addr = a := by rw [hla]; exact h.addr_eq (by simp)
   obtain ⟨hi2, hl2, hlo2, hmem⟩ := putElement_inv hi1 haddr
@@ -139,12 +139,11 @@ theorem unlink_inv {d : Deque} {l r : List Nat} {a : Nat} (h : Inv d [] (l ++ a 
   · have hnil : l ++ r = [] := by
       rw [hlen2] at hz
       exact List.eq_nil_of_length_eq_zero (by omega)
-    have hne2 := hi2.elements_ne_nil (a := a) (by simp [hmem])
-    obtain ⟨d3, hr, hi3, hl3, hne3⟩ := autoReset_inv hi2.tmpl hne2
-    refine ⟨d3, by simp [unlink, hrm, hz, hr], by rw [hnil]; exact hi3, by rw [hl3, hnil]; rfl, ?_, hne3⟩
+    obtain ⟨hi3, hl3⟩ := autoReset_inv (d := d1.putElement a) hi2.tmpl
+    refine ⟨(d1.putElement a).autoReset, by simp [unlink, hrm, hz], by rw [hnil]; exact hi3,
+      by rw [hl3, hnil]; rfl, ?_⟩
     rw [hnil]; simp
-  · refine ⟨d1.putElement a, by simp [unlink, hrm, hz], hi2, hlen2, ?_,
-      hi2.elements_ne_nil (a := a) (by simp [hmem])⟩
+  · refine ⟨d1.putElement a, by simp [unlink, hrm, hz], hi2, hlen2, ?_⟩
     intro b hb
     have : b ≠ a := by grind
     rw [hlo2 b this, hv1]
@@ -158,18 +157,12 @@ theorem popFront_eq_unlink {d : Deque} {a : Nat} (hh : d.head = a) (h0 : a ≠ 0
     d.popFront = (d.unlink a).map fun d' => (d', (d.load a).value) := by
   simp [popFront, front, unlink, hh, get_of_lt hl, h0]
   cases d.doRemove a <;> simp
-  split
-  · cases Deque.autoReset _ <;> rfl
-  · rfl
 
 theorem popBack_eq_unlink {d : Deque} {a : Nat} (hh : d.tail = a) (h0 : a ≠ 0)
     (hl : a < d.elements.length) :
     d.popBack = (d.unlink a).map fun d' => (d', (d.load a).value) := by
   simp [popBack, back, unlink, hh, get_of_lt hl, h0]
   cases d.doRemove a <;> simp
-  split
-  · cases Deque.autoReset _ <;> rfl
-  · rfl
 
 /-! ### insert -/
 
